@@ -93,3 +93,44 @@ def serialize(tokens, encoding=None, **opts):
     s = HTMLSerializer(**opts)
     out = s.render(tokens, encoding) if encoding else s.render(tokens)
     return out, s
+
+
+class DispatchLimit(Exception):
+    """Raised by parse_bounded when the tree-construction dispatcher was entered more often than the limit."""
+
+
+class _BoundedLog(list):
+    def __init__(self, limit):
+        list.__init__(self)
+        self.limit = limit
+        self.n = 0
+
+    def append(self, x):
+        self.n += 1
+        if self.n > self.limit:
+            raise DispatchLimit("%d dispatches; last: %r" % (self.n, x))
+        if len(self) < 50:
+            list.append(self, x)
+
+
+def parse_bounded(text, limit, builder="dom", namespace=True, scripting=False, container=None, full_tree=False):
+    """Parse with HTMLParser(debug=True), whose main loop appends one record to parser.log per token dispatch;
+    the log is replaced by a counting list, so a token that is reprocessed for ever becomes a deterministic
+    DispatchLimit instead of a hang (no wall clock involved)."""
+    import html5lib
+    kw = {}
+    if builder == "etree" and full_tree:
+        kw["fullTree"] = True
+    tb = html5lib.getTreeBuilder(builder, **kw)
+
+    class P(html5lib.HTMLParser):
+        def reset(self):
+            html5lib.HTMLParser.reset(self)
+            self.log = _BoundedLog(limit)
+
+    p = P(tree=tb, namespaceHTMLElements=namespace, debug=True)
+    if container is None:
+        r = p.parse(text, scripting=scripting)
+    else:
+        r = p.parseFragment(text, container=container, scripting=scripting)
+    return r, p
